@@ -417,6 +417,13 @@ structure W where
   of their datatype -/
   ghostNil : Nat := 0
   ghostBare : Nat := 0
+  /-- `nesting`: how many `[ … ]` are open (only counted when `Gen.PrettyFlags.maxBnodeNesting` is a cap) -/
+  nesting : Nat := 0
+  /-- `deferred`: indices of SubTree blank nodes met at the nesting cap, to be described by `write_tree` after the
+  roots of the current graph; head = top of the `Vec` (`push` = cons, `pop` = head) -/
+  deferred : List Nat := []
+  /-- labels added to `labelled` while writing (`self.labelled.insert(bn)` at the nesting cap) -/
+  labx : List Str := []
 
 def W.noteIri (w : W) (pos : Pos) (s : Str) : W :=
   if s == rdfNil && pos == .other && !Gen.PrettyFlags.nilNodeOnly then { w with ghostNil := w.ghostNil + 1 } else w
@@ -453,6 +460,12 @@ def listsRemove (ls : Lists) (k : Term) : Option (List Term × Lists) :=
   | some e => some (e.2, ls.filter (fun e => !(termCmp e.1 k == .eq)))
   | none => none
 
+/-- `self.nesting >= MAX_BNODE_NESTING` (never, in the code before /repo da7f8f8, which had no cap) -/
+def atNestingCap (nesting : Nat) : Bool :=
+  match Gen.PrettyFlags.maxBnodeNesting with
+  | some cap => decide (cap ≤ nesting)
+  | none => false
+
 mutual
 /-- `write_term` (`pos` only matters for the fixed `write_iri`) -/
 def writeTerm (env : Env) : Nat → W → Pos → Term → W
@@ -481,7 +494,7 @@ def writeBnode (env : Env) : Nat → W → Term → W
       let w := items.foldl (fun w item => writeTerm env f w.newline .node item) w
       ((w.less env).newline).writeS ")"
     | none =>
-      if isLabelled env.lab bn then
+      if isLabelled env.lab bn || isLabelled w.labx bn then
         (match bn with
          | .bnode l => w.write ('_' :: ':' :: l)
          | _ => w)
@@ -492,9 +505,15 @@ def writeBnode (env : Env) : Nat → W → Term → W
            | some e =>
              (match e.st with
               | .subTree =>
-                let w := w.writeS "["
-                let w := writeProperties env f w e.s
-                (w.writeS "]").setDone i
+                if atNestingCap w.nesting then
+                  -- `SubTree if self.nesting >= MAX_BNODE_NESTING`: label it, describe it later
+                  (match bn with
+                   | .bnode l => { w with labx := l :: w.labx, deferred := i :: w.deferred }.write ('_' :: ':' :: l)
+                   | _ => w)
+                else
+                  let w := { w with nesting := w.nesting + 1 }.writeS "["
+                  let w := writeProperties env f w e.s
+                  ({ w with nesting := w.nesting - 1 }.writeS "]").setDone i
               | .root => w.writeS "[]"
               | _ => w)
            | none => w)
@@ -560,12 +579,30 @@ def writeTree (env : Env) (fuel : Nat) (w : W) (root : Term) : W :=
   let w := writeProperties env fuel w root
   w.writeS ".\n"
 
-/-- `write_graph` -/
-def writeGraph (env : Env) (fuel : Nat) (w : W) : W :=
+/-- the `for i in self.graph_range` loop of `write_graph`: the Roots -/
+def writeRoots (env : Env) (fuel : Nat) (w : W) : W :=
   ((List.range w.hi).filter (fun i => w.lo ≤ i)).foldl (fun w i =>
     match w.sts[i]? with
     | some e => if e.st == .root then (writeTree env fuel w e.s).setDone i else w
     | none => w) w
+
+/-- `while let Some(i) = self.deferred.pop()`: the blank nodes that were too deeply nested to be described inline
+(each tree may defer more).  `n` bounds the iterations (every entry is deferred at most once); running out = `fault`. -/
+def drainDeferred (env : Env) (fuel : Nat) : Nat → W → W
+  | 0, w => if w.deferred.isEmpty then w else { w with fault := true }
+  | n + 1, w =>
+    match w.deferred with
+    | [] => w
+    | i :: rest =>
+      let w := { w with deferred := rest }
+      match w.sts[i]? with
+      | some e => drainDeferred env fuel n ((writeTree env fuel w e.s).setDone i)
+      | none => { w with fault := true }      -- `self.subject_types[i]` out of bounds
+
+/-- `write_graph` -/
+def writeGraph (env : Env) (fuel : Nat) (w : W) : W :=
+  let w := writeRoots env fuel w
+  drainDeferred env fuel (w.sts.length + 1) w
 
 /-- the `while let Some(g) = self.next_graph()` loop of `write_all` -/
 def writeNamedGraphs (env : Env) (fuel : Nat) : Nat → W → W
